@@ -66,10 +66,66 @@ def ring_closure_case(draw):
     return dict(kind='rule', rule=rule, layout=draw(ringast.layout()), smiles=smi, directed=True)
 
 
+SAME_BOND = [('[CH][CH]', 1, 2), ('[C][C]', 1, 3), ('[CH2][CH2]', 1, 1), ('C#C', 3, 0), ('[C]#[C]', 3, 1), ('C=C', 2, 0), ('[CH]=[CH]', 2, 1),
+             ('CC', 1, 0), ('C[C][C]C', 1, 2), ('[CH]=O', 2, 1), ('[CH][O]', 1, 1)]
+
+
+@st.composite
+def same_bond_case(draw):
+    """several edits of ONE bond in a row (increase twice, decrease then increase, set then increase ...): every edit acts on
+    the bond as the edits before it left it, not as the pattern declares it"""
+    smi, order, rad = draw(st.sampled_from(SAME_BOND))
+    mol = Chem.AddHs(Chem.MolFromSmiles(smi))
+    heavy = [a.GetIdx() for a in mol.GetAtoms() if a.GetAtomicNum() > 1]
+    pair = next((b.GetBeginAtomIdx(), b.GetEndAtomIdx()) for b in mol.GetBonds()
+                if b.GetBeginAtom().GetNumRadicalElectrons() == b.GetEndAtom().GetNumRadicalElectrons() == rad or
+                (b.GetBeginAtomIdx() in heavy and b.GetEndAtomIdx() in heavy and smi in ('[CH]=O', '[CH][O]')))
+    labs = draw(ringast.labels(2))
+    atoms = [dict(prefix=None, symbol=mol.GetAtomWithIdx(i).GetSymbol(), suffix='?', label=labs[k], constraints=[]) for k, i in enumerate(pair)]
+    frag = dict(molprefix=[], name='r', atoms=atoms, tree=[[1, 0, {1: 'single', 2: 'double', 3: 'triple'}[order]]], ringbonds=[], stereo=[])
+    r = [mol.GetAtomWithIdx(i).GetNumRadicalElectrons() for i in pair]
+    bond_edits, rad_edits = [], []
+    o = order
+    for _ in range(draw(st.integers(2, 3))):
+        opts = []
+        if o < 3 and min(r) >= 1:
+            opts.append('inc')
+        if o > 1:
+            opts.append('dec')
+        opts.append('set')
+        kind = draw(st.sampled_from(opts))
+        if kind == 'inc':
+            bond_edits.append(['inc-bond', draw(st.sampled_from([0, 1])), None])
+            o += 1
+            r = [x - 1 for x in r]
+            rad_edits += [['dec-rad', 0], ['dec-rad', 1]]
+        elif kind == 'dec':
+            bond_edits.append(['dec-bond', draw(st.sampled_from([0, 1])), None])
+            o -= 1
+            r = [x + 1 for x in r]
+            rad_edits += [['inc-rad', 0], ['inc-rad', 1]]
+        else:
+            new = draw(st.sampled_from([k for k in (1, 2, 3) if k - o <= min(r)]))
+            bond_edits.append(['modify-bond', 0, 1, {1: 'single', 2: 'double', 3: 'triple'}[new]])
+            d = new - o
+            r = [x - d for x in r]
+            rad_edits += [['dec-rad' if d > 0 else 'inc-rad', a] for _ in range(abs(d)) for a in (0, 1)]
+            o = new
+    bond_edits = [[e[0], e[1], 1 - e[1]] if e[0] in ('inc-bond', 'dec-bond') else e for e in bond_edits]
+    # radical edits commute with everything: put them anywhere between the bond edits, which keep their order
+    edits = list(bond_edits)
+    for e in rad_edits:
+        edits.insert(draw(st.integers(0, len(edits))), e)
+    rule = dict(name='same', rname='r1', reactant=frag, edits=edits)
+    return dict(kind='rule', rule=rule, layout=draw(ringast.layout()), smiles=smi, directed=True, then=[smi])
+
+
 @st.composite
 def rule_case(draw):
     if draw(st.integers(0, 9)) == 0:
         return draw(ring_closure_case())
+    if draw(st.integers(0, 7)) == 0:
+        return draw(same_bond_case())
     smi = draw(st.one_of(st.sampled_from(MOLS), molgen.gas(5, stereo=False), molgen.radical(4)))
     mol = Chem.MolFromSmiles(smi)
     directed = draw(st.integers(0, 2)) > 0 and mol is not None
